@@ -151,6 +151,27 @@ class NpShim:
             return True
         return _np.isfinite(x)
 
+    def isclose(self, a, b, rtol=1e-05, atol=1e-08, equal_nan=False):
+        """numpy's definition over the reals: |a - b| <= atol + rtol*|b| (symbolic operands give a symbolic truth value)"""
+        if any(isinstance(x, _np.ndarray) and x.dtype == object for x in (a, b)):
+            a_, b_ = _np.broadcast_arrays(_np.asarray(a, dtype=object), _np.asarray(b, dtype=object))
+            out = _np.empty(a_.shape, dtype=object)
+            for i in range(a_.size):
+                out.flat[i] = self.isclose(a_.flat[i], b_.flat[i], rtol, atol)
+            return out
+        if is_sym(a) or is_sym(b) or isinstance(a, Fraction) or isinstance(b, Fraction):
+            fr = lambda v: v if is_sym(v) or isinstance(v, Fraction) else Fraction(repr(float(v)))
+            a_, b_, rt, at = fr(a), fr(b), Fraction(repr(float(rtol))), Fraction(repr(float(atol)))
+            return s_fabs(a_ - b_) <= at + rt * s_fabs(b_)
+        return _np.isclose(a, b, rtol=rtol, atol=atol, equal_nan=equal_nan)
+
+    def allclose(self, a, b, rtol=1e-05, atol=1e-08, equal_nan=False):
+        r = self.isclose(a, b, rtol, atol)
+        if isinstance(r, _np.ndarray) and r.dtype == object:
+            from .sym import s_and
+            return s_and(*list(r.flat)) if r.size else True
+        return bool(_np.all(r)) if isinstance(r, _np.ndarray) else r
+
     def isinf(self, x):
         if is_sym(x) or isinstance(x, Fraction):
             return False
